@@ -652,86 +652,4 @@ Proof.
   - split; [reflexivity|]. split; [reflexivity|]. intros [_ H]. vm_compute in H. discriminate.
 Qed.
 
-(* ================================================================== (d) the ledger *)
-Definition cur_ok (L : ledger) (cur sz : option N) : Prop :=
-  match cur, sz with
-  | None, None => True
-  | Some i, Some n => live L i = Some n /\ i < next L
-  | _, _ => False
-  end.
-
-Definition fresh_above (L : ledger) : Prop := forall j, next L <= j -> live L j = None.
-
-(* what a replay from (L0, cur0) has done when it arrives at (L', cur') *)
-Record replayed (L0 : ledger) (cur0 : option N) (L' : ledger) (cur' sz' : option N) : Prop := {
-  rp_err : lerr L' = false;
-  rp_next : next L0 <= next L';
-  rp_fresh : fresh_above L';
-  rp_cur : cur_ok L' cur' sz';
-  rp_other : forall j, Some j <> cur0 -> Some j <> cur' ->
-                       (j < next L0 -> live L' j = live L0 j) /\ (next L0 <= j -> live L' j = None);
-  rp_old : forall j, Some j = cur0 -> Some j <> cur' -> live L' j = None;
-  rp_new : forall i', cur' = Some i' -> cur' = cur0 \/ next L0 <= i' }.
-
-Lemma l_has_true L i o n : live L i = Some n -> l_has L i o = (o =? n).
-Proof. unfold l_has. now intros ->. Qed.
-
-Lemma neqb_false (a b : N) : Some a <> Some b -> (a =? b) = false.
-Proof. intros H. destruct (N.eqb_spec a b); congruence. Qed.
-
-Lemma l_ev_sound L cur sz e sz' :
-  lerr L = false -> fresh_above L -> cur_ok L cur sz -> ev_step sz e = Some sz' ->
-  replayed L cur (fst (l_ev L cur e)) (snd (l_ev L cur e)) sz'.
-Proof.
-  intros He Hfr Hc Hs. unfold fresh_above in Hfr.
-  destruct e as [n ok|o n ok|o|].
-  - (* malloc *)
-    destruct sz as [o'|]; [destruct ok; discriminate|].
-    destruct cur as [i|]; [contradiction|]. destruct ok; injection Hs as <-; cbn [l_ev l_add fst snd].
-    + constructor; unfold fresh_above; cbn [live next lerr]; try assumption; try lia.
-      * intros j Hj. replace (j =? next L) with false by lia. apply Hfr. lia.
-      * split; [now rewrite N.eqb_refl|lia].
-      * intros j _ Hj. rewrite (neqb_false _ _ Hj).
-        split; [reflexivity|]. intros Hge. apply Hfr. assumption.
-      * intros j Hj. discriminate.
-      * intros i' [= <-]. right. lia.
-    + constructor; unfold fresh_above; try assumption; try lia; cbn [cur_ok]; auto.
-      * intros j _ _. split; [reflexivity|apply Hfr].
-      * intros j Hj. discriminate.
-  - (* realloc *)
-    destruct sz as [o'|]; [|destruct ok; discriminate].
-    destruct cur as [i|]; [|contradiction]. destruct Hc as [Hl Hi].
-    assert (o = o' /\ sz' = (if ok then Some n else Some o')) as [-> ->].
-    { destruct ok; cbn in Hs; destruct (o =? o') eqn:Eo; try discriminate;
-        apply N.eqb_eq in Eo; injection Hs as <-; auto. }
-    cbn [l_ev]. rewrite (l_has_true _ _ _ _ Hl), N.eqb_refl.
-    destruct ok; cbn [l_add l_del fst snd].
-    + constructor; unfold fresh_above; cbn [live next lerr]; try assumption; try lia.
-      * intros j Hj. replace (j =? next L) with false by lia. replace (j =? i) with false by lia.
-        apply Hfr. lia.
-      * split; [now rewrite N.eqb_refl|lia].
-      * intros j Hj1 Hj2. rewrite (neqb_false _ _ Hj2), (neqb_false _ _ Hj1).
-        split; [reflexivity|]. intros Hge. apply Hfr. assumption.
-      * intros j [= <-] Hj2. replace (j =? next L) with false by lia. now rewrite N.eqb_refl.
-      * intros i' [= <-]. right. lia.
-    + constructor; unfold fresh_above; try assumption; try lia; cbn [cur_ok]; auto.
-      * intros j _ _. split; [reflexivity|apply Hfr].
-      * intros j Hj1 Hj2. congruence.
-  - (* free *)
-    destruct sz as [o'|]; [|discriminate].
-    destruct cur as [i|]; [|contradiction]. destruct Hc as [Hl Hi].
-    cbn in Hs. destruct (o =? o') eqn:Eo; [|discriminate]. apply N.eqb_eq in Eo. subst o'.
-    injection Hs as <-. cbn [l_ev]. rewrite (l_has_true _ _ _ _ Hl), N.eqb_refl.
-    cbn [l_del fst snd].
-    constructor; unfold fresh_above; cbn [live next lerr]; try assumption; try lia; cbn [cur_ok]; auto.
-    + intros j Hj. replace (j =? i) with false by lia. apply Hfr. assumption.
-    + intros j Hj1 _. rewrite (neqb_false _ _ Hj1). split; [reflexivity|apply Hfr].
-    + intros j [= <-] _. now rewrite N.eqb_refl.
-    + intros i' Hi'. discriminate.
-  - (* free(NULL) *)
-    destruct sz as [o'|]; [discriminate|].
-    destruct cur as [i|]; [contradiction|]. injection Hs as <-. cbn [l_ev fst snd].
-    constructor; unfold fresh_above; try assumption; try lia; cbn [cur_ok]; auto.
-    + intros j _ _. split; [reflexivity|apply Hfr].
-    + intros j Hj. discriminate.
-Qed.
+(* (d) the ledger of heap blocks: coq/C07/StrLedgerProofs.v *)
